@@ -48,7 +48,8 @@ def gen(rng, tier):
             nsrc = rng.choice([1, 1, 2, 3, 4])
             cap = nsrc + rng.choice([0, 0, 1, 5])
             sources = ["s%d" % i for i in range(nsrc)]
-            lines = ["cfg rate %s cap=%d" % (rc.fmt_rates(rates), cap)]
+            # a share without any Capacity option (DefaultCapacity): the limiter must behave exactly as within an explicit capacity
+            lines = ["cfg rate %s cap=%s" % (rc.fmt_rates(rates), "default" if rng.random() < 0.25 else str(cap))]
             lines += rc.gen_source_ops(rng, rates, sources, rng.randint(20, long_ops),
                                        allow_retry=True, allow_rates=rng.random() < 0.15)
         yield lines
@@ -101,7 +102,7 @@ def monitor(ops, outs):
     if kind == "set":
         _window_check("<set>", rates, evs, bad)
         return bad
-    cap = int(rc.kv(cfg, "cap") or 0) or 65536
+    cap = rc.cap_of(cfg)
     srcs = sorted(set(e.src for e in evs))
     if len(srcs) > cap:
         return bad          # outside the guarantee of the statement
